@@ -150,6 +150,9 @@ class Exec:
             s.fbyid[i + 1] = name
         s.ipd = {}
         s.ginit = {}
+        s.div_oracle = None      # optional: fn(ex, st, op, bits, A, B) -> term or None (sound rewrites only; see checks/c16.py)
+        s.div_zero_check = False
+        s.feas_timeout_ms = 20000
 
     # ------------------------------------------------------------------ memory
     def new_region(s, st, size, name):
@@ -527,7 +530,9 @@ class Exec:
 
     # ------------------------------------------------------------------ control
     def feasible(s, st, cond):
+        """unknown counts as feasible (sound: an infeasible path only contributes terms under a false guard)"""
         s.nsolver += 1
+        s.solver.set('timeout', s.feas_timeout_ms)
         r = s.solver.check(*(st.pc + [cond]))
         return r != z3.unsat
 
@@ -683,13 +688,15 @@ class Exec:
         return None
 
     def merge_logs(s, logs):
-        n = min(len(l) for l in logs)
-        i = 0
-        while i < n and all(l[i] is logs[0][i] for l in logs):
-            i += 1
-        out = list(logs[0][:i])
+        """ordered union by identity: an entry shared by several branches (appended before they forked) appears once;
+        entries of different branches are mutually exclusive through their guards, so their relative order is immaterial"""
+        seen = set()
+        out = []
         for l in logs:
-            out.extend(l[i:])
+            for e in l:
+                if id(e) not in seen:
+                    seen.add(id(e))
+                    out.append(e)
         return out
 
     def ite_merge(s, guards, vs, bits=None):
@@ -915,6 +922,17 @@ def step(s, fr, st, x):
         A, B = s.val(st, fr, t, a), s.val(st, fr, t, b)
         if isinstance(A, Ptr) or isinstance(B, Ptr):
             raise Abort('arith on pointer')
+        if k in ('udiv', 'urem', 'sdiv', 'srem'):
+            if is_c(B) and B == 0:
+                s.exits.append((list(st.pc), 'ub', 'division by zero in ' + fr.fn.name))
+                return 'dead'
+            if not is_c(B) and s.div_zero_check:
+                s.oblig.append((list(st.pc), bv(B, t.bits) != 0, 'divisor != 0 in ' + fr.fn.name))
+            if s.div_oracle is not None and not (is_c(A) and is_c(B)):
+                r = s.div_oracle(s, st, k, t.bits, A, B)
+                if r is not None:
+                    env[d] = r
+                    return
         env[d] = s.binop(k, t, A, B)
     elif k == 'icmp':
         _, d, pred, t, a, b = x
